@@ -56,6 +56,7 @@ static int cmp(const void * a, const void * b, void * p)
 }
 
 static int vis_log[4 * MAXE], vis_n, vis_stop, vis_erase;
+static int vsign = 1;   /* sign of the visitor's non-zero answer (header vsign); the result is printed times vsign */
 static struct cstl_dlist * vis_list, * vis_other;
 static int visit(void * e, void * p)
 {
@@ -74,7 +75,7 @@ static int visit(void * e, void * p)
         cstl_dlist_erase(vis_list, e);
         cstl_dlist_push_back(vis_other, e);
     }
-    return (vis_stop > 0 && vis_n == vis_stop) ? vis_stop : 0;
+    return (vis_stop > 0 && vis_n == vis_stop) ? vsign * vis_stop : 0;
 }
 static void clr(void * e, void * p)
 {
@@ -122,7 +123,7 @@ static void run_case(const struct h_case * c)
     /* cases are tiny; a broken ring makes cstl_dlist_foreach spin forever, so do
      * not wait for hcommon.h's 20 s alarm */
     if (!h_nofork) alarm(3);
-    nkeys = 0; nlists = 1; cmpmode = 0; cmp_calls = 0;
+    nkeys = 0; nlists = 1; cmpmode = 0; cmp_calls = 0; vsign = 1;
     memset(pool, 0, sizeof(pool));
     for (i = 0; i < c->nlines; i++) {
         const struct h_line * l = &c->lines[i];
@@ -134,6 +135,7 @@ static void run_case(const struct h_case * c)
         }
         if (h_weq(l, 0, "nlists")) { nlists = a; continue; }
         if (h_weq(l, 0, "cmpmode")) { cmpmode = a; continue; }
+        if (h_weq(l, 0, "vsign")) { vsign = a < 0 ? -1 : 1; continue; }
         if (!started) {
             for (k = 0; k < nlists; k++)
                 cstl_dlist_init(&lists[k], offsetof(struct elem, dn));
@@ -159,7 +161,7 @@ static void run_case(const struct h_case * c)
             }
             r = cstl_dlist_foreach(&lists[a], visit, NULL, pdir(l, 2));
             vis_erase = 0;
-            printf("ok %d", r);
+            printf("ok %d", vsign * r);
             for (k = 0; k < vis_n && k < 4 * MAXE; k++) printf(" %d", vis_log[k]);
         }
         else if (h_weq(l, 0, "find")) {
